@@ -18,14 +18,15 @@ type writeMonitor struct {
 	cells    map[*value]string      // frozen cells -> description of the root
 	maps     map[interface{}]string // frozen maps (map[value]value pointer identity via reflect) -> root
 	hmaps    map[*hashmap]string
-	slices   map[*value]string // first element address of frozen backing arrays
+	slices   map[*value]string     // first element address of frozen backing arrays
+	chans    map[chan value]string // frozen channels (a send or receive changes their shared buffer)
 	recs     map[string]int
 	enabled  bool
 	allowKey func(root string, key value) bool
 }
 
 func newWriteMonitor(i *interpreter) *writeMonitor {
-	return &writeMonitor{i: i, cells: map[*value]string{}, maps: map[interface{}]string{}, hmaps: map[*hashmap]string{}, slices: map[*value]string{}, recs: map[string]int{}}
+	return &writeMonitor{i: i, cells: map[*value]string{}, maps: map[interface{}]string{}, hmaps: map[*hashmap]string{}, slices: map[*value]string{}, chans: map[chan value]string{}, recs: map[string]int{}}
 }
 
 func (m *writeMonitor) records() []string {
@@ -97,6 +98,10 @@ func (m *writeMonitor) freeze(v value, root string, seen map[interface{}]bool) {
 			m.freeze(e.key, root, seen)
 			m.freeze(e.value, root, seen)
 		}
+	case chan value:
+		if x != nil {
+			m.chans[x] = root
+		}
 	case *closure:
 		// a host function's own captured state is not caller data
 	case tuple:
@@ -121,6 +126,20 @@ func (m *writeMonitor) freezeInner(addr *value, root string, seen map[interface{
 		}
 	default:
 		m.freeze(*addr, root, seen)
+	}
+}
+
+// noteChan records a send to / receive from a frozen channel (both change its buffer).
+func (m *writeMonitor) noteChan(fr *frame, ch value, what string) {
+	if !m.enabled {
+		return
+	}
+	c, ok := ch.(chan value)
+	if !ok || c == nil {
+		return
+	}
+	if root, ok := m.chans[c]; ok {
+		m.recs[fmt.Sprintf("%s on frozen channel of %s in %s", what, root, fr.fn)]++
 	}
 }
 
